@@ -132,6 +132,30 @@ class Ctx:
         shutil.rmtree(os.path.join(d, "md"), ignore_errors=True)
         return res
 
+    def simulate(self, module, cfgname, subst=None, num=100, depth=60, timeout=300, note=""):
+        """Behaviours generated by TLC's simulator from a Gen_* module that prints each behaviour's operation
+        history as <<"GEN", json>>; returns the path of a file with one JSON array per line (duplicates removed)."""
+        res = self._tlc(module, self.cfg(cfgname, subst), {}, 1, timeout,
+                        extra_args=("-simulate", "num=%d" % num, "-depth", str(depth), "-seed", str(self.seed)))
+        seen, out = set(), []
+        for line in res["out"].splitlines():
+            m = re.match(r'<<"GEN", (".*")>>\s*$', line)
+            if not m:
+                continue
+            js = json.loads(m.group(1))
+            if js not in seen:
+                seen.add(js)
+                out.append(js)
+        fatal = [e for e in res["errors"]]
+        if fatal or not out:
+            raise Broken("TLC simulation of %s produced no behaviours or failed:\n%s" % (module, "\n".join(res["out"].splitlines()[-30:])))
+        path = os.path.join(self.scratch, "gen-%s-%d.jsonl" % (module, self.n))
+        open(path, "w").write("\n".join(out) + "\n")
+        self.step("tlc-simulate", module=module, cfg=cfgname, subst=subst or {}, behaviours=len(out), depth=depth, wall_s=res["wall_s"], note=note)
+        self.cov.setdefault("behaviours_generated_by_tlc", 0)
+        self.cov["behaviours_generated_by_tlc"] += len(out)
+        return path
+
     def cfg(self, name, subst=None):
         text = open(os.path.join(SPEC, name)).read()
         for k, v in (subst or {}).items():
